@@ -230,7 +230,7 @@ def corpus_cases():
 
 def chunks(tier, seed):
     ch = [{"kind": "corpus"}]
-    nrand = {"quick": 1600, "thorough": 30000}.get(tier, 4000)
+    nrand = {"quick": 1600, "thorough": 120000}.get(tier, 4000)
     per = max(1, nrand // 16)
     for i in range(16):
         ch.append({"kind": "random", "seed": seed * 1000 + i, "n": per})
